@@ -41,10 +41,10 @@ func buildCases(e *lib.Env) []*tcase {
 		shapes = append(shapes, styled(s)...)
 	}
 	fullW := e.Pick(1, 2)
-	cover := e.Pick(2, 30)
-	frac := map[int]float64{2: 0.05, 3: 0.01, 4: 0.002}
+	cover := e.Pick(2, 20)
+	frac := map[int]float64{2: 0.03, 3: 0.005, 4: 0.001}
 	if !e.Quick() {
-		frac = map[int]float64{3: 0.25, 4: 0.03}
+		frac = map[int]float64{3: 0.08, 4: 0.01}
 	}
 	rs := e.Rand("matrix-sample")
 	seen := map[string]int{}
